@@ -11,7 +11,7 @@ structure St where
   wa : TWorld
   ws : TWorld
   wc : TWorld
-  wd : TWorld           -- `D …` = C + the storage APPENDS its extension to the name it is given (proposed repair)
+  wd : TWorld           -- `D …` = C + the storage APPENDS its extension to the name it is given = the tree as it is
   dotted : Bool         -- this case uses two explicit names that differ by a dotted tail (`layout dotted`)
 
 def init : St := ⟨.init Cls.graph, .init Cls.graph, .init Cls.graph, .init Cls.graph, .init Cls.graph, false⟩
